@@ -513,6 +513,10 @@ func runC06c(seed int64, tier string, sc *Script) map[string]any {
 	sc.NonTrivial()
 	sc.Op(pushDeleteRace(ctx, tmp, pdRounds), "s pushdelrace rounds=%d", pdRounds)
 	ops += pdRounds
+	sc.Case("concurrent-tags-then-reopen oci")
+	sc.NonTrivial()
+	sc.Op(tagReopen(ctx, tmp, pdRounds), "s tagreopen rounds=%d", pdRounds)
+	ops += pdRounds
 	sc.Case("tag-races-delete oci")
 	sc.NonTrivial()
 	sc.Op(v, "s tagrace rounds=%d", races)
